@@ -94,6 +94,9 @@ func (c *Ctx) NameAlways(hint string, t Term) Term {
 	}
 	v := c.Fresh(hint, t.Sort)
 	c.lines = append(c.lines, fmt.Sprintf("(assert (= %s %s))", v.S, t.S))
+	if t.Sort == SInt {
+		v.lin = linOf(t) // transparent for further arithmetic (lengths and offsets keep folding)
+	}
 	c.named[t.S] = v
 	c.defs[v.S] = t.S
 	return v
